@@ -472,6 +472,8 @@ class Engine(object):
             return v.t, v.elem
         if isinstance(v, VRef):
             o = st.heap[v.loc]
+            if isinstance(o, HInst) and o.cls in C.ASLIST:
+                return self.seq_of(o.fields[C.ASLIST[o.cls]], st)      # the object used as the list it is
             if isinstance(o, HList):
                 return o.seq, o.elem
             if isinstance(o, HIdxList):
